@@ -469,25 +469,31 @@ theorem cache_scope_is_forwarded_prefix_v6 (pol : Policy) (client : Option Addr)
   simp only [requestScope, ha, firstEcs, Fwd.toSubnet, hf, Fam.width]
   simp [ipToAddr, hl, hb, hnm, Addr.prefix?, Fam.width, hm, maskTo_of_aligned 128 f.mask f.val hz]
 
+/-- **The scoped limit is honoured below the cache's own floor too.** Whatever
+TTL the response carries (0, below the 5 s floor, above the 24 h ceiling) and
+whatever limit is configured (1 s included), a scoped entry lives at most
+`cache_limit_ttl`; an unscoped one stays within the cache's bounds. -/
+theorem scoped_ttl_capped_below_floor (isScoped : Bool) (cap msgTTL : Nat) :
+    (isScoped = true → 0 < cap → storedTTL isScoped cap msgTTL ≤ cap) ∧
+    storedTTL isScoped cap msgTTL ≤ 86400 ∧
+    (isScoped = false ∨ cap = 0 → 5 ≤ storedTTL isScoped cap msgTTL) := by
+  have hb : 5 ≤ clampTTL msgTTL ∧ clampTTL msgTTL ≤ 86400 := by
+    unfold clampTTL; split <;> (try split) <;> omega
+  unfold storedTTL capTTL
+  generalize clampTTL msgTTL = t at hb
+  cases isScoped <;> by_cases hc : cap > 0 <;> by_cases ht : t > cap <;> simp [hc, ht] <;> omega
+
 /-- **Scoped answers are capped by the scoped TTL limit** (when one is
-configured) and are never lengthened — positive answers, NODATA, NXDOMAIN and
-referral-shaped replies alike. -/
+configured) — positive answers, NODATA, NXDOMAIN and referral-shaped replies
+alike, limits below the cache's 5 s floor included — and no entry outlives the
+cache's 24 h ceiling. -/
 theorem scoped_ttl_capped (p : Option Policy) (cs : Option Prefix) (ro : Option (List Opt))
     (qid : Nat) (cd : Bool) (ttl cap ans : Nat) (kind : RespKind) :
     let e := storeEntry p cs ro qid cd ttl cap ans kind
-    e.ttl ≤ ttl ∧ (e.scope.isSome = true → 0 < cap → e.ttl ≤ cap) := by
-  simp only [storeEntry, capTTL]
-  constructor
-  · split
-    · rename_i hc
-      simp only [Bool.and_eq_true, decide_eq_true_eq] at hc
-      omega
-    · exact Nat.le_refl _
-  · intro hs hcap
-    simp only [hs, Bool.true_and]
-    by_cases ht : ttl > cap
-    · simp [hcap, ht]
-    · simp [ht]; omega
+    e.ttl ≤ 86400 ∧ (e.scope.isSome = true → 0 < cap → e.ttl ≤ cap) := by
+  simp only [storeEntry]
+  obtain ⟨h1, h2, _⟩ := scoped_ttl_capped_below_floor (storeScope p cs ro).isSome cap ttl
+  exact ⟨h2, h1⟩
 
 /-- **The scoped TTL limit survives every cache configuration**: whatever cache
 size and prefetch percentage the operator wrote — valid, or rejected by
@@ -532,6 +538,11 @@ theorem wire_v6_subnet_clamped (pol : Policy) (s d : Subnet) (h : decodeWireSubn
     by_cases hm : isMapped16 q = true
     · simp [clamp, ipToAddr, hl, hm]
     · simp [clamp, ipToAddr, hl, hm, Addr.prefix?, Fam.width, Policy.fwdMax, hmin]
+
+/-- **Nothing of the client's OPT reaches the fallback servers.** -/
+theorem fallback_query_carries_no_client_option (copts : Option (List Opt)) :
+    fallbackQueryOpts copts = [] ∧ ∀ o ∈ fallbackQueryOpts copts, o.isEcs = false := by
+  exact ⟨rfl, fun o ho => by cases ho⟩
 
 /-- **Scoped entries are never background-refreshed**: not eligible, and the
 hit path never enqueues them whatever their remaining lifetime. -/
@@ -843,7 +854,8 @@ theorem tree_facts :
     SdnsVerif.Gen.C19.shipped_enabled = false ∧
     SdnsVerif.Gen.C19.shipped_forward_v4 ≤ 24 ∧ SdnsVerif.Gen.C19.shipped_forward_v6 ≤ 56 ∧
     0 < SdnsVerif.Gen.C19.shipped_cache_limit_ttl_s ∧ SdnsVerif.Gen.C19.shipped_cache_limit_ttl_s ≤ 300 ∧
-    SdnsVerif.Gen.C19.code_subnet = 8 := by
+    SdnsVerif.Gen.C19.code_subnet = 8 ∧
+    SdnsVerif.Gen.C19.min_cache_ttl_s = 5 ∧ SdnsVerif.Gen.C19.max_cache_ttl_s = 86400 := by
   decide
 
 /-! ## non-vacuity -/
@@ -879,6 +891,8 @@ example : decodeWireSubnet ⟨1, 19, 0, some [10, 1, 255]⟩ =
 example : decodeWireSubnet ⟨1, 33, 0, some [10, 1, 255, 255]⟩ = none := by decide
 example : clamp (some demoPol) ((decodeWireSubnet ⟨2, 61, 0, some [0x20, 1, 0xd, 0xb8, 0xff, 0xff, 0xff, 0xff]⟩).getD ⟨0, 0, 0, none⟩) =
     some ⟨.v6, 56, 0x20010db8ffffff000000000000000000⟩ := by decide
+-- a 2 s limit: a scoped answer with TTL 300 lives 2 s, not the 5 s floor; unscoped TTL 1 is lifted to 5
+example : storedTTL true 2 300 = 2 ∧ storedTTL false 2 1 = 5 ∧ storedTTL true 0 100000 = 86400 := by decide
 -- cache size omitted and prefetch 95: the fallback keeps the 300 s scoped limit
 example : cacheKnobs 0 95 300 = ⟨1024, 0, 300⟩ ∧ cacheKnobs 4096 5 300 = ⟨4096, 10, 300⟩ := by decide
 -- two OPT records: the first one's cookie and /32 vanish
